@@ -147,6 +147,11 @@ def check_object(obj, exp, where):
         if cls in ("PDF", "DiagPDF") and not isinstance(obj, pdf.GaussianPDF):
             raise Mismatch(where + ".class", type(obj).__name__, cls, "not a density")
         check_measure_family(obj, exp, where)
+    elif cls == "ValPDF":
+        from . import bindings_approx
+        bindings_approx.check_valpdf(obj, exp, where)
+    elif cls in ("LRBF", "LSEM", "HetExp", "HetCosh", "HetStep", "HetRelu", "ApproxCond"):
+        pass      # opaque to the specification's object comparison; exercised through their operations
     elif cls in ("Trunc", "TruncPDF"):
         from gaussian_toolbox.experimental import truncated_measure as _tm
         want = _tm.TruncatedGaussianPDF if cls == "TruncPDF" else _tm.TruncatedGaussianMeasure
@@ -331,6 +336,17 @@ def compare_ret(st, ret):
 OPERAND_KEYS = ("i", "j", "k")
 
 
+def make_flags(st):
+    """Plain facts about a freshly created object that later steps' contexts (known-finding signatures) may need."""
+    a = st["a"]
+    fl = {"exact": bool(a.get("exact"))}
+    if st["act"] == "NewHet":
+        fl.update(Dy=len(a["M"]["n"]), Dx=len(a["M"]["n"][0]), Da=len(a["A"]["n"][0]), Dk=len(a["W"]["n"]))
+    if st["act"] == "NewFeat":
+        fl.update(Dy=len(a["M"]["n"]), Dk=len(a["centres"]), Dx=len(a["centres"][0]["n"]))
+    return fl
+
+
 # steps that are never wrapped in jit: they patch globals / run python-side statistics / are no library call
 NOJIT = {"Nop", "Sample", "NewTrunc", "TruncIntegrate", "TruncCall", "TruncGetDensity", "TruncStat"}
 
@@ -401,6 +417,9 @@ class Replayer:
                 if "M" in e:
                     ctx["Dy_" + key] = len(e["M"][0])
                     ctx["Dx_" + key] = len(e["M"][0][0])
+                for fk, fv in self.flags.get(st["a"][key], {}).items():
+                    if fk != "exact":
+                        ctx[fk + "_" + key] = fv
         return ctx
 
     def run(self, behaviour):
@@ -430,7 +449,7 @@ class Replayer:
                         raise Mismatch("result", None, "object", "call returned no object")
                     self.heap[st["id"]] = new
                     self.expect[st["id"]] = st["o"]
-                    self.flags[st["id"]] = {"exact": bool(st["a"].get("exact"))}
+                    self.flags[st["id"]] = make_flags(st)
                     check_object(new, st["o"], "result")
                 if st["mid"]:
                     self.expect[st["mid"]] = st["mo"]
@@ -454,4 +473,4 @@ class Replayer:
         return None
 
 
-from . import bindings_cond, bindings_trunc, bindings_sample  # noqa: E402,F401  (register the remaining bindings)
+from . import bindings_cond, bindings_trunc, bindings_sample, bindings_approx  # noqa: E402,F401  (register the remaining bindings)
